@@ -10,6 +10,7 @@ from __future__ import annotations
 
 import collections
 import itertools
+import urllib.parse
 
 from docutils import nodes
 
@@ -69,7 +70,11 @@ def check_tree(doc, warn, post, sphinx_stage=False):
     for n in doc.findall(lambda n: isinstance(n, (nodes.reference, nodes.footnote_reference, nodes.target))):
         r = n.get("refid")
         if r and r not in allids:
-            reported = ("not found: %r" % r) in warn or ("Unknown target name" in warn) or (r in warn and "not found" in warn)
+            ru = urllib.parse.unquote(r)  # the refid keeps the percent-encoded href, the report names the decoded target
+            reported = (("not found: %r" % r) in warn or ("not found: %r" % ru) in warn or ("Unknown target name" in warn)
+                        or ((r in warn or ru in warn) and "not found" in warn)
+                        # the report is attached to the very reference (its text may spell the target differently, e.g. '#//[x]' -> refid '//x')
+                        or any(isinstance(c, nodes.system_message) and "not found" in c.astext() for c in n.children))
             if not reported and post:
                 v.append(("v-dangling-refid", n.tagname))
     if post:
@@ -121,7 +126,7 @@ class FragmentSystem(System):
         return run_doc(text)
 
 
-def run_doc(text, sig_extra=None):
+def run_doc(text, sig_extra=None, rich=False):
     viol = []
     dig = []
 
@@ -143,10 +148,47 @@ def run_doc(text, sig_extra=None):
         f2 = check_tree(post, wpost, post=True)
         add("after-transforms", f2)
         dig.append(tuple(sorted(set(f2))))
+        if rich:  # observed shape of the result: warnings issued, id-bearing nodes, node kinds
+            dig.append((wpost.count("WARNING") + wpost.count("ERROR"), sum(1 for n in post.findall(nodes.Element) if n.get("ids")),
+                        tuple(sorted({n.tagname for n in post.findall(nodes.Element)}))))
         nt = any(isinstance(n, (nodes.table, nodes.transition)) or (isinstance(n, nodes.Element) and n.get("ids")) for n in post.findall())
     else:
         nt = True
     return Obs(digest=tuple(dig), nontrivial=nt, violations=viol[:4], transitions=2, validated=2, stats={"transform_aborted": int(aborted)})
+
+
+class SlotSystem(System):
+    """C01's template x atom product, judged by the well-formedness invariants instead of totality"""
+
+    name = "slots"
+
+    def __init__(self, tier):
+        super().__init__(tier)
+        from . import c01
+
+        self.T, self.A = c01.TEMPLATES, c01.ATOMS
+        self.description = (f"{len(self.T)} one-slot syntactic templates x {len(self.A)} hostile atoms (the C01 product): "
+                            "invariants after Parser.parse and after the full pipeline")
+
+    def bounds(self):
+        return {"templates": len(self.T), "atoms": len(self.A)}
+
+    def rule(self):
+        return "one case = (template, atom) (2 documents: pre- and post-transform); an escaping exception is C01's, not judged here"
+
+    def cases(self):
+        for t in range(len(self.T)):
+            for a in range(len(self.A)):
+                yield [t, a]
+
+    def run(self, case):
+        t, a = case
+        body = self.T[t].replace("@", self.A[a])
+        text = body if body.startswith("---") else "MARKER first paragraph\n\n" + body
+        try:
+            return run_doc(text, rich=True)
+        except (Exception, RecursionError) as exc:
+            return Obs(digest=("exc", type(exc).__name__), nontrivial=False, transitions=1, validated=1)
 
 
 RAWF = ["a\\\nb\n", "x <b>i</b> y\n", "<div>blk</div>\n", "~~s~~\n", "> q\\\n> r\n", "- i <u>u</u>\n", "```{raw} html\n<p>r</p>\n```\n", "|a\\|\n|-|\n|b<br>c|\n"]
@@ -277,4 +319,4 @@ class SphinxSystem(System):
 
 
 def systems(tier):
-    return [FragmentSystem(tier), GrammarSystem(tier), RawDisabledSystem(tier), SphinxSystem(tier)]
+    return [FragmentSystem(tier), SlotSystem(tier), GrammarSystem(tier), RawDisabledSystem(tier), SphinxSystem(tier)]
